@@ -244,7 +244,8 @@ func sessionFlags(c *Ctx, id string) {
 // closeModePolarity (C18): the serial loop runs when the version gate is set, the concurrent one when it is not.
 func closeModePolarity(c *Ctx, id string) {
 	w := c.W
-	f := w.Field("stream", "stream", "streamEndNotSupportedData")
+	sfName, _ := w.serialCloseField()
+	f := w.Field("stream", "stream", sfName)
 	c.need(f != nil, id, "stream.streamEndNotSupportedData")
 	n := 0
 	for _, fn := range w.ModFuncs {
